@@ -21,6 +21,14 @@ PY
 for s in extract/specs/*.json; do
   ./extract/bin/x-gen --repo "${VERIF_REPO:-/repo}" --spec "$s" --out lean/Gp/Gen || true
 done
+for b in $(python3 -c "
+import json,subprocess
+bs=set()
+for p in json.loads(subprocess.run(['./check','--dump-all'],capture_output=True,text=True).stdout).values():
+    bs|=set(p.get('extract_bins',[]))
+print(' '.join(sorted(bs)))"); do
+  (cd extract && go build -o bin/$b ./cmd/$b && ./bin/$b --repo "${VERIF_REPO:-/repo}" --out ../lean/Gp/Gen) || true
+done
 (cd lean && lake build $targets) || rc=1
 # Go adapters: warm the build cache
 (cd harness && for d in cmd/*/; do go build -tags verif -o bin/$(basename $d) ./$d || exit 1; done) || rc=1
